@@ -7,6 +7,7 @@ import (
 	"math"
 	"sort"
 	"strconv"
+	"strings"
 
 	"github.com/go-openapi/spec"
 
@@ -74,6 +75,11 @@ func checkPropertyOrder(text []byte, parsed interface{}, propPaths map[string]bo
 						break
 					}
 					o, has, integral := xOrderOf(pm["x-order"])
+					for k := range pm {
+						if k != "x-order" && strings.EqualFold(k, "x-order") {
+							integral = false // a case variant of the extension name: whether it counts is not stated, only determinism is checked
+						}
+					}
 					if !integral {
 						ok = false // non-integer x-order: only determinism is promised
 						break
